@@ -833,6 +833,23 @@ func (m *machine) runStep(idx int, s step) (stop bool) {
 		m.attachObs(ev, s.H, s.NoObs)
 		m.emit(ev)
 
+	case "Adopt":
+		// the value an accessor of packet From returns (Will() of a decoded CONNECT) becomes a handle of its own
+		q := m.pkts[s.From]
+		if isNilPacket(q) {
+			m.emit(obj{"ev": "Skip", "op": s.Op, "h": s.H, "why": "nil source handle"})
+			return true
+		}
+		res := reflect.ValueOf(q).MethodByName(s.Key).Call(nil)[0]
+		if res.Kind() != reflect.Ptr || res.IsNil() {
+			m.emit(obj{"ev": "Skip", "op": s.Op, "h": s.H, "why": "accessor returned nil"})
+			return true
+		}
+		m.pkts[s.H] = res.Interface()
+		ev := obj{"ev": "New", "h": s.H, "type": typeName(res.Interface()), "how": "adopt"}
+		m.attachObs(ev, s.H, s.NoObs)
+		m.emit(ev)
+
 	case "CmpDiag":
 		// a marker: the trace specification compares the Diag outputs of the two handles
 		m.emit(obj{"ev": "CmpDiag", "hs": s.Hs})
